@@ -9,8 +9,19 @@ use std::sync::atomic::AtomicBool;
 use std::sync::Arc;
 use std::time::Duration;
 
-fn cell(sig: i32, status: i32, armed: bool, e: &mut Emit) {
+static HOOK_FD: std::sync::atomic::AtomicI32 = std::sync::atomic::AtomicI32::new(-1);
+
+extern "C" fn exit_hook() {
+    let m = b"atexit-ran\n";
     unsafe {
+        libc::write(HOOK_FD.load(std::sync::atomic::Ordering::SeqCst), m.as_ptr() as *const _, m.len());
+    }
+}
+
+fn cell(sig: i32, status: i32, armed: bool, e: &mut Emit) {
+    HOOK_FD.store(e.fd(), std::sync::atomic::Ordering::SeqCst);
+    unsafe {
+        libc::atexit(exit_hook);
         let rl = libc::rlimit { rlim_cur: 0, rlim_max: 0 };
         libc::setrlimit(libc::RLIMIT_CORE, &rl);
     }
@@ -21,6 +32,10 @@ fn cell(sig: i32, status: i32, armed: bool, e: &mut Emit) {
         libc::raise(sig);
     }
     e.line("survived");
+    // leave without running exit-time hooks: "atexit-ran" can then only come from the delivery
+    unsafe {
+        libc::_exit(0);
+    }
 }
 
 pub fn run(_tier: Tier) -> BResult {
@@ -42,6 +57,8 @@ pub fn run(_tier: Tier) -> BResult {
         distinct.insert((p.fate.describe(), armed));
         let bad = if !armed {
             if p.fate != Fate::Exited(0) || !p.has("survived") { Some(format!("not armed, but the process {}", p.fate.describe())) } else { None }
+        } else if p.has("atexit-ran") {
+            Some("exit-time hooks ran inside the signal handler (exit instead of _exit: not async-signal-safe, unbounded)".to_string())
         } else if p.fate != Fate::Exited(st & 0xff) {
             Some(format!("the delivery must end the process with exit status {} (the low 8 bits of {}), but it {}{}", st & 0xff, st, p.fate.describe(), if p.fate == Fate::Signaled(libc::SIGABRT) { " - a panic inside the signal handler" } else { "" }))
         } else {
@@ -61,7 +78,7 @@ pub fn run(_tier: Tier) -> BResult {
         violations,
         exhaustive: true,
         caps: vec![],
-        rule: "termination signals x exit statuses {-1,-255,-256,256,257,511,1000,65536,MIN,MAX,0,255} armed (+ one not armed): the delivery ends the process by _exit with the low 8 bits, never by a panic".into(),
+        rule: "termination signals x exit statuses {-1,-255,-256,256,257,511,1000,65536,MIN,MAX,0,255} armed (+ one not armed): the delivery ends the process by _exit with the low 8 bits, never by a panic, and without running exit-time hooks inside the handler (an atexit hook is registered in every cell)".into(),
         assumptions: vec![],
     }
 }
